@@ -276,6 +276,11 @@ class PyFat(object):
 
         return self.bpb_header["BPB_TotSec32"]
 
+    def _get_cluster_count(self):
+        """Get number of clusters in the data area."""
+        data_sectors = self._get_total_sectors() - self.first_data_sector
+        return data_sectors // self.bpb_header["BPB_SecPerClus"]
+
     def _get_fat_size_count(self):
         """Get BPB_FATsz value."""
         if self.bpb_header["BPB_FATSz16"] != 0:
@@ -530,9 +535,13 @@ class PyFat(object):
         max_clus = self.FAT_CLUSTER_VALUES[self.fat_type]["MAX_DATA_CLUSTER"]
         num_clusters = self.calc_num_clusters(size)
 
+        # The FAT is sector-rounded and usually has more entries than
+        # the data area has clusters, do not hand out non-existing ones
+        num_entries = min(len(self.fat), self._get_cluster_count() + 2)
+
         # Fill list of found free clusters
         free_clusters = []
-        for i in range(self.first_free_cluster, len(self.fat)):
+        for i in range(self.first_free_cluster, num_entries):
             if min_clus > i or i > max_clus:
                 # Ignore out of bound entries
                 continue
